@@ -12,7 +12,7 @@ class Reject(Exception):
     pass
 
 
-def tokenize(text):
+def tokenize(text, lower=True):
     toks = []
     i, n = 0, len(text)
     while i < n:
@@ -29,14 +29,14 @@ def tokenize(text):
             j = i
             while j < n and text[j] not in BLANKS and text[j] not in "();":
                 j += 1
-            toks.append(text[i:j].lower())
+            toks.append(text[i:j].lower() if lower else text[i:j])
             i = j
     return toks
 
 
-def read(text):
+def read(text, lower=True):
     """Exactly one top-level parenthesised form, else Reject."""
-    toks = tokenize(text)
+    toks = tokenize(text, lower)
     if not toks:
         raise Reject("empty")
     if toks[0] != "(":
